@@ -882,8 +882,55 @@ def _indexed_direction(cf, lp, word, ms_name):
     return d + ((None if covers else f'range({lo}, {hi})'),)
 
 
+def _sorted_by_rank(fn, e):
+    """`sorted(X, key=lambda v: (<rank of v>, ..))` where the rank is the position of v in the database-ordered list, looked up in a
+    local table `R = {x: i for i, x in enumerate(self.<ordered list>)}`: database order (True) when the lookup is `R.get(v, D)` or
+    `R[v] if v in R else D`; NOT database order (False) when it is `R.get(v) or D` - position 0, the first-declared variable, is falsy
+    and is ranked with the undeclared ones.  None for any other key."""
+    if not (isinstance(e, ast.Call) and isinstance(e.func, ast.Name) and e.func.id == 'sorted' and len(e.args) == 1):
+        return None
+    key = next((k.value for k in e.keywords if k.arg == 'key'), None)
+    if not (isinstance(key, ast.Lambda) and len(key.args.args) == 1):
+        return None
+    v = key.args.args[0].arg
+    first = key.body.elts[0] if isinstance(key.body, ast.Tuple) and key.body.elts else key.body
+
+    def rank_table(name):
+        defs = [n for n in ast.walk(fn) if isinstance(n, ast.Assign) and len(n.targets) == 1 and isinstance(n.targets[0], ast.Name) and n.targets[0].id == name]
+        if len(defs) != 1 or not isinstance(defs[0].value, ast.DictComp) or len(defs[0].value.generators) != 1:
+            return False
+        dc = defs[0].value
+        g = dc.generators[0]
+        return (not g.ifs and isinstance(g.iter, ast.Call) and isinstance(g.iter.func, ast.Name) and g.iter.func.id == 'enumerate' and len(g.iter.args) == 1
+                and ast.unparse(g.iter.args[0]) == f'self.{ORDERED_ATTR}' and isinstance(g.target, ast.Tuple) and len(g.target.elts) == 2
+                and all(isinstance(t, ast.Name) for t in g.target.elts) and isinstance(dc.key, ast.Name) and dc.key.id == g.target.elts[1].id
+                and isinstance(dc.value, ast.Name) and dc.value.id == g.target.elts[0].id)
+
+    def get_of(c, nargs):
+        return isinstance(c, ast.Call) and isinstance(c.func, ast.Attribute) and c.func.attr == 'get' and isinstance(c.func.value, ast.Name) \
+            and rank_table(c.func.value.id) and len(c.args) == nargs and isinstance(c.args[0], ast.Name) and c.args[0].id == v and not c.keywords
+    if get_of(first, 2):
+        return True, ''
+    if isinstance(first, ast.IfExp) and isinstance(first.body, ast.Subscript) and isinstance(first.body.value, ast.Name) and rank_table(first.body.value.id) \
+            and ast.unparse(first.body.slice) == v and ast.unparse(first.test) == f'{v} in {first.body.value.id}':
+        return True, ''
+    if isinstance(first, ast.BoolOp) and isinstance(first.op, ast.Or) and get_of(first.values[0], 1):
+        return False, (f'the hypotheses are ordered by `{ast.unparse(first)}`: position 0 - the first-declared `$f` variable - is falsy and gets the '
+                       f'default rank, so that variable is numbered after all the others')
+    return None
+
+
 def database_ordered(fn: ast.FunctionDef, it):
     """(True, why) | (False, why) | (None, why-undecided)"""
+    ranked = _sorted_by_rank(fn, it)
+    if ranked is not None:
+        return ranked
+    if isinstance(it, ast.Name):
+        ds = [n.value for n in ast.walk(fn) if isinstance(n, (ast.Assign, ast.AnnAssign)) and n.value is not None
+              and isinstance(n.targets[0] if isinstance(n, ast.Assign) else n.target, ast.Name)
+              and (n.targets[0] if isinstance(n, ast.Assign) else n.target).id == it.id]
+        if len(ds) == 1 and _sorted_by_rank(fn, ds[0]) is not None:
+            return _sorted_by_rank(fn, ds[0])
     def leading_ordered(e):
         if isinstance(e, ast.ListComp) and e.generators and ast.unparse(e.generators[0].iter) == f'self.{ORDERED_ATTR}':
             return True
@@ -1045,6 +1092,12 @@ def step_tokens(ctx, py: PyRepo, fn):
         return bool(made) and all(len(c.args) > k and isinstance(c.args[k], ast.Name) and c.args[k].id == ls_names[0] for c in made)
 
     regions = [(lp.target.id, lp.body, lp, None) for lp in ast.walk(fn) if isinstance(lp, ast.For) and isinstance(lp.target, ast.Name)]
+    # a loop with one letter of look-ahead (`for letter, following in pairwise(text + ' ')`, `zip(text, text[1:] + ' ')`): the first
+    # component is the letter the iteration is about - what it does for that letter is judged exactly like in the plain loop
+    for lp in ast.walk(fn):
+        if isinstance(lp, ast.For) and isinstance(lp.target, ast.Tuple) and len(lp.target.elts) == 2 and all(isinstance(t, ast.Name) for t in lp.target.elts) \
+                and isinstance(lp.iter, ast.Call) and isinstance(lp.iter.func, ast.Name) and lp.iter.func.id in ('pairwise', 'zip'):
+            regions.append((lp.target.elts[0].id, lp.body, lp, None))
     for c in mi.classes.values():
         for g in c.methods.values():
             if g is not fn and len(g.args.args) == 2:
